@@ -147,19 +147,24 @@ loop:
 // imap.EpochUIDValidityGenerator: concurrent Generate calls, explorer-chosen clock, optional restart.
 
 type epScenario struct {
-	Threads int // concurrent threads on the first generator, 2 calls each
-	Restart int // calls on a fresh generator afterwards (0 = no restart)
+	Threads int  // concurrent threads on the first generator, 2 calls each
+	Restart int  // calls on a fresh generator afterwards (0 = no restart)
+	Back    bool // the clock may also step back one second at a reading (within one process only)
 }
 
 func (e epScenario) String() string {
+	if e.Back {
+		return fmt.Sprintf("threads=%d restart-calls=%d clock-may-step-back", e.Threads, e.Restart)
+	}
 	return fmt.Sprintf("threads=%d restart-calls=%d", e.Threads, e.Restart)
 }
 
 func epScenarios() []epScenario {
 	if report.Tier() != "thorough" {
-		return []epScenario{{1, 0}, {2, 0}, {3, 0}, {1, 1}, {1, 2}, {2, 1}}
+		return []epScenario{{1, 0, false}, {2, 0, false}, {3, 0, false}, {1, 1, false}, {1, 2, false}, {2, 1, false}, {1, 0, true}, {2, 0, true}}
 	}
-	return []epScenario{{1, 0}, {2, 0}, {3, 0}, {1, 1}, {1, 2}, {2, 1}, {2, 2}, {3, 1}}
+	return []epScenario{{1, 0, false}, {2, 0, false}, {3, 0, false}, {1, 1, false}, {1, 2, false}, {2, 1, false}, {2, 2, false}, {3, 1, false},
+		{1, 0, true}, {2, 0, true}, {3, 0, true}}
 }
 
 func runEpoch(sc epScenario, prefix []int) *Exec {
@@ -168,6 +173,17 @@ func runEpoch(sc epScenario, prefix []int) *Exec {
 	epoch := time.Date(2023, 2, 1, 0, 0, 0, 0, time.UTC)
 	now := epoch.Add(1000 * time.Second)
 	vtime.Clock = func() time.Time {
+		if sc.Back {
+			// within one process the generator remembers its last value, so a clock that steps back
+			// (NTP correction) must not make it hand out a smaller or repeated value
+			switch s.Choose("clock(same second|+1s|-1s)", 3) {
+			case 1:
+				now = now.Add(time.Second)
+			case 2:
+				now = now.Add(-time.Second)
+			}
+			return now
+		}
 		if s.Choose("clock(same second|+1s)", 2) == 1 {
 			now = now.Add(time.Second)
 		}
@@ -347,5 +363,5 @@ func runC04(tier string) int {
 	if tier == "thorough" {
 		b = 3
 	}
-	return runUnit("C04", "epoch", "imap.EpochUIDValidityGenerator", b, []string{"generator part of C04: every schedule (1 thread: unbounded; 2 threads: preemption bound 2 quick / 3 thorough; 3 threads: one less) of concurrent Generate calls at atomic-operation granularity with an explorer-chosen clock (same second or +1 s per reading) and an optional restart (fresh generator, same epoch); a clock stepping backwards is not explored"})
+	return runUnit("C04", "epoch", "imap.EpochUIDValidityGenerator", b, []string{"generator part of C04: every schedule (1 thread: unbounded; 2 threads: preemption bound 2 quick / 3 thorough; 3 threads: one less) of concurrent Generate calls at atomic-operation granularity with an explorer-chosen clock (same second or +1 s per reading) and an optional restart (fresh generator, same epoch); scenarios without a restart are also explored with a clock that may step back one second at any reading (a backward step across a restart is not explored: the fresh generator has no memory, see the across-restart finding)"})
 }
